@@ -255,6 +255,9 @@ class SymInterp:
                 if isinstance(t, ast.Subscript):
                     base = self.ev(t.value, env)
                     del base[self.ev(t.slice, env)]
+                elif isinstance(t, ast.Name):
+                    if t.id in env and dict.__contains__(env, t.id):
+                        dict.__delitem__(env, t.id)
                 else:
                     raise AnalysisError(f"del {unparse(t)} outside the fragment")
             return
@@ -355,7 +358,7 @@ class SymInterp:
                 return a // b
             if isinstance(e.op, ast.Mod):
                 return a % b
-            if isinstance(e.op, ast.Pow) and isinstance(a, (int, float)) and isinstance(b, int):
+            if isinstance(e.op, ast.Pow) and isinstance(a, (int, float)) and isinstance(b, (int, float)):
                 return a ** b
             if isinstance(e.op, ast.MatMult) and (isinstance(a, Blob) or isinstance(b, Blob)):
                 return Blob("matmul")
